@@ -471,15 +471,18 @@ fn parse_new_float(input: &[u8]) -> NomResult<'_, OwnedTerm> {
     Ok((input, OwnedTerm::Float(value)))
 }
 
+/// ATOM_EXT and SMALL_ATOM_EXT carry Latin-1 text: every byte is one code point.
+fn latin1_to_string(bytes: &[u8]) -> String {
+    bytes.iter().map(|&b| b as char).collect()
+}
+
 fn parse_atom_latin1(input: &[u8]) -> NomResult<'_, OwnedTerm> {
     let (input, len) = be_u16(input)?;
     if len as usize > MAX_ATOM_SIZE {
         return Err(nom::Err::Failure(NomError::new(input, ErrorKind::TooLarge)));
     }
     let (input, bytes) = take(len as usize)(input)?;
-    let name = str::from_utf8(bytes)
-        .map_err(|_| nom::Err::Failure(NomError::new(input, ErrorKind::Char)))?;
-    Ok((input, OwnedTerm::Atom(Atom::new(name))))
+    Ok((input, OwnedTerm::Atom(Atom::new(latin1_to_string(bytes)))))
 }
 
 fn parse_atom_utf8(input: &[u8]) -> NomResult<'_, OwnedTerm> {
@@ -510,9 +513,7 @@ fn parse_small_atom_latin1(input: &[u8]) -> NomResult<'_, OwnedTerm> {
         return Err(nom::Err::Failure(NomError::new(input, ErrorKind::TooLarge)));
     }
     let (input, bytes) = take(len as usize)(input)?;
-    let name = str::from_utf8(bytes)
-        .map_err(|_| nom::Err::Failure(NomError::new(input, ErrorKind::Char)))?;
-    Ok((input, OwnedTerm::Atom(Atom::new(name))))
+    Ok((input, OwnedTerm::Atom(Atom::new(latin1_to_string(bytes)))))
 }
 
 fn parse_dist_header_with_cache<'a>(
@@ -984,9 +985,12 @@ fn parse_atom_latin1_borrowed(input: &[u8]) -> NomResult<'_, BorrowedTerm<'_>> {
         return Err(nom::Err::Failure(NomError::new(input, ErrorKind::TooLarge)));
     }
     let (input, bytes) = take(len as usize)(input)?;
-    let name = str::from_utf8(bytes)
-        .map_err(|_| nom::Err::Failure(NomError::new(input, ErrorKind::Char)))?;
-    Ok((input, BorrowedTerm::Atom(Cow::Borrowed(name))))
+    // ASCII is the common subset of Latin-1 and UTF-8 and can stay borrowed
+    let name = match str::from_utf8(bytes) {
+        Ok(name) if bytes.is_ascii() => Cow::Borrowed(name),
+        _ => Cow::Owned(latin1_to_string(bytes)),
+    };
+    Ok((input, BorrowedTerm::Atom(name)))
 }
 
 fn parse_atom_utf8_borrowed(input: &[u8]) -> NomResult<'_, BorrowedTerm<'_>> {
